@@ -12,17 +12,17 @@ CHECKS = {
    ref="DESIGN.md section 3/C01"),
  "C05": dict(
    text="Long-lived memoizing mapper instances (all cached stock mappers, NodeCountMapper, FlopCounter, CSE mix-in users, classes rewritten by optimize_mapper under every valid option set and in a seeded definition order) serve seeded call histories; each call is compared with the non-memoizing counterpart applied afresh and the handler-entry log (sys.setprofile) is checked for at-most-once per typed key; faults (handler raise, environment raise, stack exhaustion, async interrupt) are injected inside calls and the same instance keeps being used. Exploration-level evidence; the property is about call histories and option combinations, which only a history search reaches.",
-   note="Trusts the non-memoizing stock mappers as the reference (differential), sys.setprofile delivery, and that extras that are == but differently typed are out of scope; two open known findings (D1, D8) are classified by narrow executable models and configurations that can hit them are kept apart from the strict ones.",
+   note="Trusts the non-memoizing stock mappers as the reference (differential), sys.setprofile delivery, and that extras that are == but differently typed are out of scope; three open known findings (D1, D8, D15 signed zeros) are classified by narrow executable models and configurations that can hit them are kept apart from the strict ones.",
    technique="deterministic simulation: seeded call histories on stateful mapper instances with injected faults, fresh-counterpart and at-most-once oracles, ddmin, exact replay",
    ref="DESIGN.md section 3/C05"),
  "C12": dict(
    text="tag_common_subexpressions output is evaluated by fresh and reused evaluator instances whose environment consists of instrumented fakes; value preservation against plain evaluation of the untagged input, once-per-wrapper over an evaluator's whole life, and the work-sharing bound of the statement are checked over the recorded handler log; environment functions raise mid-evaluation and the evaluator is reused.",
-   note="Differential against pymbolic's own plain EvaluationMapper on the untransformed input (exact rationals); the once-only sentence is read in its weakest literal form (DESIGN.md); D1 applies in a separate configuration.",
+   note="Differential against pymbolic's own plain EvaluationMapper on the untransformed input (exact rationals); the once-only sentence is read in its weakest literal form (DESIGN.md); D1 applies in a separate configuration; D14 (the histogram tagger folds 'false' pre-existing wrappers to 0) is an open known finding classified by an executable model.",
    technique="deterministic simulation: seeded evaluation histories on stateful evaluators with injected environment faults, handler-log oracles, ddmin, exact replay",
    ref="DESIGN.md section 3/C12"),
  "C14": dict(
    text="A lineage of CCodeMapper instances (copies, copies with mapped CSEs) is fed a seeded history of expressions; a name-table reference model is checked after every emission and the accumulated assignments plus expressions are compiled with gcc and run against the evaluator (exact for integers, 1e-7 relative after a conditioning filter for floats); unsupported nodes raise mid-emit and the mapper is reused.",
-   note="Trusts gcc/libm and pymbolic's EvaluationMapper as the value reference; only the C-expressible fragment described in DESIGN.md is generated; ill-conditioned and out-of-range programs are discarded and counted.",
+   note="Trusts gcc/libm (g++/libstdc++ for programs with complex constants) and pymbolic's EvaluationMapper as the value reference; only the C-expressible fragment described in DESIGN.md is generated; ill-conditioned and out-of-range programs are discarded and counted.",
    technique="deterministic simulation: seeded emission histories over a stateful mapper lineage with injected mid-emit faults, name-table model, compile-and-run oracle, ddmin, exact replay",
    ref="DESIGN.md section 3/C14"),
  "C17": dict(
